@@ -641,6 +641,11 @@ func (in *Interp) assertOb(c *smt.Term, ob, finding string, class *smt.Term) {
 		in.res.Discharged[ob]++
 		return
 	}
+	if !in.sending() {
+		// re-executed prefix of an earlier path (same path condition, same assertion): decided there already
+		in.assume(c)
+		return
+	}
 	in.res.DistinctQ[fmt.Sprintf("%s:%d:%d", ob, c.ID, len(in.pc))] = true
 	check := func(extra ...*smt.Term) (smt.Result, map[string]string) {
 		in.solver.Push()
@@ -790,6 +795,9 @@ func (in *Interp) bytesToBigStrict(v value) *smt.Term {
 }
 
 func (in *Interp) bytesCompare(x, y []*smt.Term) *smt.Term {
+	if r := in.bigImageCompare(x, y); r != nil { // both operands are images of integers: intr_bigcmp.go
+		return r
+	}
 	c := in.ctx
 	intB := basicOf(types.Typ[types.Int])
 	m1, z, p1 := in.intConst(intB, big.NewInt(-1)), in.intConst(intB, big.NewInt(0)), in.intConst(intB, big.NewInt(1))
